@@ -46,6 +46,7 @@ func TestVerifStmtBind(t *testing.T) {
 	if err != nil {
 		t.Fatal(err)
 	}
+	defer fix.cleanup()
 	out, err := verifkit.OpenOut()
 	if err != nil {
 		t.Fatal(err)
